@@ -479,8 +479,12 @@ impl<R: BufRead> TextReportReader<R> {
 
     fn read_extract(&mut self, regex: &Regex, name: &str) -> io::Result<Vec<String>> {
         let line = self.read_line()?;
+        // Strip only the line terminator; trailing whitespace may belong to the value.
+        let line = line.trim_start();
+        let line = line.strip_suffix('\n').unwrap_or(line);
+        let line = line.strip_suffix('\r').unwrap_or(line);
         Ok(regex
-            .captures(line.trim())
+            .captures(line)
             .ok_or_else(|| {
                 Error::new(
                     ErrorKind::InvalidData,
@@ -554,7 +558,7 @@ impl<R: BufRead + Send + 'static> ReportReader for TextReportReader<R> {
         let timestamp = self
             .read_extract(&TIMESTAMP_RE, "timestamp")?
             .swap_remove(0);
-        let timestamp = Self::parse_timestamp(&timestamp, "timestamp")?;
+        let timestamp = Self::parse_timestamp(timestamp.trim(), "timestamp")?;
         let command = self.read_extract(&COMMAND_RE, "command")?.swap_remove(0);
         let command = arg::split(&command).map_err(|e| {
             Error::new(
@@ -563,7 +567,12 @@ impl<R: BufRead + Send + 'static> ReportReader for TextReportReader<R> {
             )
         })?;
         let base_dir = self.read_extract(&BASE_DIR_RE, "base dir")?.swap_remove(0);
-        let base_dir = Path::from(base_dir);
+        let base_dir = Path::from_escaped_string(&base_dir).map_err(|e| {
+            Error::new(
+                ErrorKind::InvalidData,
+                format!("Malformed header: Failed to decode base dir: {e}"),
+            )
+        })?;
 
         let stats = self.read_extract(&TOTAL_RE, "total file statistics")?;
         let total_file_size = Self::parse_file_len(stats.first(), "total file size")?;
